@@ -168,6 +168,13 @@ theorem inventory_covered :
     (∀ e ∈ Poly.Generated.CodecInventory.c05, (Kind.all.map Kind.goType ++ ["ConsensusPayload"]).contains e.1 = true) ∧
     (∀ k ∈ Kind.all, (Poly.Generated.CodecInventory.c05.map (·.1)).contains k.goType = true) := by decide
 
+/-- (T) the frame and clamp constants of the model are the constants of the Go source (regenerated on every run). -/
+theorem constants_match :
+    MSG_CMD_LEN = Poly.Generated.CodecInventory.const "MSG_CMD_LEN" ∧ CHECKSUM_LEN = Poly.Generated.CodecInventory.const "CHECKSUM_LEN" ∧
+    MSG_HDR_LEN = Poly.Generated.CodecInventory.const "MSG_HDR_LEN" ∧ MAX_PAYLOAD_LEN = Poly.Generated.CodecInventory.const "MAX_PAYLOAD_LEN" ∧
+    MAX_ADDR_NODE_CNT = Poly.Generated.CodecInventory.const "MAX_ADDR_NODE_CNT" ∧
+    MAX_INV_BLK_CNT = Poly.Generated.CodecInventory.const "MAX_INV_BLK_CNT" := by decide
+
 /-! ## Non-vacuity -/
 example : HashLongEnough (fun _ => [1, 2, 3, 4]) := fun _ => by simp [CHECKSUM_LEN]
 example : pingTy.WF (fun _ => none) (7 : UInt64) ∧ Kind.ping.ty = some pingTy := ⟨⟨trivial, rfl⟩, rfl⟩
